@@ -181,9 +181,12 @@ func RandIntLit(r *core.Rand) (string, int64) {
 }
 
 func randDoubleLit(r *core.Rand) (string, float64) {
-	forms := []string{"1.5", "-2.25", "0.0", "5.", "1e5", "1E-3", "-1.5e+10", "+3.0", "123456789.125", "2.5E3", "0.1", "1e308", "4.9e-324", "-0.0", "6.02e23"}
+	forms := []string{"2.718281828459045", "3.141592653589793", "0.30000000000000004", "1.0000000000000002", "-123456.78901234567", "9007199254740993.0", "1.5", "-2.25", "0.0", "5.", "1e5", "1E-3", "-1.5e+10", "+3.0", "123456789.125", "2.5E3", "0.1", "1e308", "4.9e-324", "-0.0", "6.02e23"}
 	s := forms[r.Intn(len(forms))]
-	if r.Chance(1, 3) {
+	if r.Chance(1, 4) {
+		// many significant digits: not representable in less than 64 bits
+		s = fmt.Sprintf("%d.%09d%07d", r.Intn(100), r.Intn(1000000000), r.Intn(10000000))
+	} else if r.Chance(1, 3) {
 		s = fmt.Sprintf("%d.%d", r.Intn(1000), r.Intn(1000))
 		if r.Bool() {
 			s += fmt.Sprintf("e%d", r.Intn(40)-20)
